@@ -140,9 +140,25 @@ def run_case(cfg):
         os.chdir(cwd); rm_rf(tmp)
 
 
+def recur_trace(tier, idx):
+    """a wrapper-suite configuration driven by a RECURSIVE function; the completions form a flat history (reentrant_eq_flat) that is
+    compared with the Lean model M3 like any other wrapper trace"""
+    import suite_wrapper as sw
+    r = rng('multi-recur', tier, idx)
+    cfg = sw.gen_cfg(r, 'quick', idx)
+    cfg.update(raising=[], keyerr=[], malformed=False, bystander=False, late_attach=False, longargs=False, nkeys=16, pre_mem=0, pre_arch=0)
+    if cfg['backend'] not in ('dict', 'plain', 'null'): cfg['backend'] = 'dict'
+    if cfg['keymap'] == 'hash': cfg['keymap'] = 'string'
+    cfg['_tops'] = [r.randrange(4, 14) for _ in range(r.choice([2, 3, 4]))]
+    return sw.run_recursive_trace(cfg, cfg['_tops'])
+
+
 def work(a):
     tier, idx = a
-    return run_case(gen(tier, idx))
+    o = run_case(gen(tier, idx))
+    if o['cfg']['scen'] == 'recur':
+        o['trace'] = recur_trace(tier, idx)
+    return o
 
 
 def explore(prop, tier, offset=0):
@@ -155,17 +171,35 @@ def explore(prop, tier, offset=0):
         for v in o['viol']:
             if v['prop'] == prop: viols.append(dict(v, i=0, cfg=o['cfg'], ops=[]))
     n = sum(tags[s] for s in ('recur', 'twin', 'unser'))
-    return dict(suite='multi', traces=n, evaluations=n, distinct_nontrivial=n, tags=dict(tags), divergences=[], violations=viols, samples=[res[0]['cfg'], res[2]['cfg']],
-                errors=errors[:3], rule=RULE, required_tags=['recur', 'twin', 'unser'], config_histogram=None)
+    # the recursive traces against the model (flat history of completions)
+    import run_wrapper as rw
+    trs = [o['trace'] for o in res if o.get('trace') is not None]
+    errors += [t['err'] for t in trs if t['err']]
+    trs = [t for t in trs if not t['err']]
+    divs, mv, wtags, _ = rw._analyse(prop, trs) if prop in ('C01', 'C02', 'C05', 'C06', 'C07', 'C15') else ([], [], {}, 0)
+    for d in divs: d['suite'] = 'multi'
+    viols += [dict(v, recursive=True) for v in mv]
+    tags['recursive-trace'] = len(trs); tags['recursive-completions'] = sum(len(t['recs']) for t in trs); tags['recursive-evictions'] = wtags.get('evict', 0)
+    return dict(suite='multi', traces=n + len(trs), evaluations=n + sum(len(t['recs']) for t in trs), distinct_nontrivial=n, tags=dict(tags), divergences=divs, violations=viols, samples=[res[0]['cfg'], res[2]['cfg']],
+                errors=errors[:3], rule=RULE, required_tags=['recur', 'twin', 'unser', 'recursive-trace'], config_histogram=None)
 
 
 def replay(prop, obj):
+    if obj.get('recursive'):
+        import suite_wrapper as sw, run_wrapper as rw
+        t = sw.run_recursive_trace(obj['cfg'], obj['cfg']['_tops'])
+        if t['err']: raise NoVerdict(t['err'])
+        divs, mv, _, _ = rw._analyse(prop, [t])
+        return dict(violations=[dict(prop=prop, sig=v['sig'], msg=v['msg'], i=v.get('i', 0)) for v in mv], divergence=divs[0]['detail'] if divs else None)
     o = run_case(obj['cfg'])
     if o['err']: raise NoVerdict(o['err'])
     return dict(violations=[dict(prop=prop, sig=v['sig'], msg=v['msg'], i=0) for v in o['viol'] if v['prop'] == prop], divergence=None)
 
 
 def shrink_and_save(prop, v):
+    if v.get('recursive'):
+        return write_replay(prop, 'violation', dict(suite='multi', property=prop, recursive=True, cfg=v['cfg'], completions=v['ops'], signature=v['sig'], message=v['msg'],
+                                                     how_to_replay='cd /verif && ./check %s --replay <this file>   (re-runs the recursive function on cfg._tops)' % prop))
     return write_replay(prop, 'violation', dict(suite='multi', property=prop, cfg=v['cfg'], signature=v['sig'], message=v['msg'],
                                                  how_to_replay='cd /verif && ./check %s --replay <this file>' % prop))
 
